@@ -79,7 +79,7 @@ CHECKS = {
  "C01": ("model_checking", "explicit-state BFS (depth-bounded) over event sequences of a real node core (Votor + Pool) in worlds with a < 20% Byzantine validator and a second correct validator with a fixed legitimate persona; in every state observer pools are fed every certificate formable from really signed votes", "E1",
          "DESIGN.md §3 C01",
          "Stakes [199 Byzantine, 401 node under test, 400 other correct validator]: Byzantine + node is exactly 60%, so every certificate needs a real vote of a correct validator. All sequences up to the depth bound of Byzantine votes (anything it can sign), the other validator's persona votes (asleep / timed out / notarized a / notarized b), certificates the adversary can aggregate at that moment from really signed votes, two blocks per slot, InvalidBlock, timeouts and loop-back of own broadcasts are executed on the real Votor + Pool. Whenever the votes signed so far could support conflicting decisions, all formable certificates are built with the real constructors, validated, and fed in two orders to fresh real pools (correct nodes that wake up later): two blocks finalized in one slot, a slot both finalized and skip-certified, or finalized blocks off one chain is a violation with a replayable schedule.",
-         "One fully simulated correct node plus one persona node (multi-node interleavings beyond personas are not explored); depth-bounded (quick 7, thorough 10); slots 1-2 and the 3/4 window boundary; thresholds themselves are C03/C09's subject."),
+         "Worlds: one real node + one persona node (depth quick 5 / thorough 10), and two / three real nodes reacting to each other over FIFO links ([199,401,400] and [19,27,27,27]; depth quick 4 / thorough 8); slots 1-2 and the 3/4 window boundary; thresholds themselves are C03/C09's subject."),
  "C02": ("fault_enumeration", "exhaustive enumeration of a fault/timing menu over n real Alpenglow nodes (block producer, Rotor, blockstore, repair, Votor timers) in a paused, seeded, single-threaded runtime; verdict from certificates on the wire and finalized_slot() of every live node", "E4",
          "DESIGN.md §3 C02",
          "For n in {4,6} (thorough 4,5,6): every crash set below 20% of stake x pre-stabilisation prefix {none, one node isolated, partition 2|n-2, all traffic held back} released after 3.2 s, and per-node in/out link speed assignments {1 ms, 100/250 ms}: in each 16 s virtual run every live node's finalized slot must advance as expected after stabilisation, no node task may die, crashed leaders' windows must be skipped without blocking later ones, every slot of a correct leader in a window starting after stabilisation must be finalized (never skip-certified), by a fast-finalization certificate when >= 80% of stake is responsive.",
